@@ -379,6 +379,10 @@ def check(ctx, quick, rng, runner, exe, tmpdir, proofs_ok):
         else:
             for _ in range(40 if quick else 400):
                 k = rng.randrange(len(data)); cases.append((cls, 'byte-flip', data[:k] + bytes([rng.randrange(256)]) + data[k + 1:]))
+            if cls == 43:   # binary header of a BMP: every byte of it, three values
+                for k in range(min(54, len(data))):
+                    for v in (0, 127, 255):
+                        cases.append((cls, 'header-byte', data[:k] + bytes([v]) + data[k + 1:]))
             lines = data.split(b'\n')
             for i in range(len(lines)):
                 cases.append((cls, 'line-deleted', b'\n'.join(lines[:i] + lines[i + 1:])))
@@ -457,6 +461,8 @@ def check(ctx, quick, rng, runner, exe, tmpdir, proofs_ok):
                 elif o1[0] >= 2:
                     stats['predicted_defect'] += 1; found_input = True
                     key = model_key(o2 if (o1[0] == 4 and o2[0] in (2, 3)) else o1)
+                    if o1[0] == 4 and o2[0] in (0, 1) and oi['kind'] in ('ok', 'fail'):
+                        key = CLS[cls] + '::_deserialize:alloc-from-file-counts'    # the loop ends; what is observed is the allocation
                     report(key, '%s on a %s file (%s): the reader model (as the code is) predicts %s and the implementation shows it: %s' % (
                         name, CLS[cls], lab, {2: 'an escaping exception / assertion', 3: 'an out-of-bounds store', 4: 'a count-driven loop that no longer consumes input'}[o1[0]],
                         generic_bad or short(oi)), replay_of(cls, data, oi, model[i]), len(data))
